@@ -116,6 +116,46 @@ def generators(core):
         if not m:
             raise Miss("ManifestSwitch arm: `payload.len() < segments_end + K` not found")
         core.emit_n("wal_manifest_tail_check", int(m.group(1)), rel + " decode_body ManifestSwitch: bytes required after the segment table by the length check (16 are read)")
+        # what next_record does with the length field
+        try:
+            nr = t[t.index("fn next_record(&mut self)"): t.index("fn try_read_u32(&mut self)")]
+        except ValueError:
+            raise Miss("WalReader::next_record not found")
+        nrc = re.sub(r"//[^\n]*", "", nr)
+        nrc = re.sub(r"\s+", " ", nrc)
+        if re.search(r"if len > MAX_WAL_RECORD_LEN \{ return Err\(Error::WalRecordTooLarge\(len\)\); \}", nrc):
+            pol = 0
+        elif re.search(r"if len == 0 \|\| len > MAX_WAL_RECORD_LEN \{ return Ok\(None\); \}", nrc):
+            pol = 1
+        else:
+            raise Miss("next_record: unknown treatment of the length field")
+        core.emit_n("wal_reader_len_policy", pol, rel + " next_record: 0 = a length field > MAX is an error; 1 = a length field that is 0 or > MAX ends the log")
+        if not re.search(r"if got_crc != crc \{ return Ok\(None\); \}", nrc):
+            raise Miss("next_record: CRC mismatch no longer ends the log")
+        if "let record = WalRecord::decode_body(&body)?;" not in nr:
+            raise Miss("next_record: decode_body error no longer propagated")
+        # does append refuse records the reader would not take back?
+        try:
+            ap = t[t.index("pub fn append(&mut self"): t.index("pub fn rewrite_as_snapshot")]
+        except ValueError:
+            raise Miss("Wal::append not found")
+        apc = re.sub(r"\s+", " ", re.sub(r"//[^\n]*", "", ap))
+        core.emit_n("wal_append_checks_max", 1 if re.search(r"if len > MAX_WAL_RECORD_LEN \{ return Err\(Error::WalRecordTooLarge\(len\)\); \}", apc) else 0,
+                    rel + " Wal::append: 1 iff a body longer than MAX_WAL_RECORD_LEN is refused")
+        if "file.seek(SeekFrom::End(0))?;" not in ap:
+            raise Miss("Wal::append no longer writes at the end of the file")
+        # does GraphEngine::open cut a torn tail off before anything is appended?
+        eng = core.src("nervusdb-storage/src/engine.rs")
+        try:
+            op = eng[eng.index("pub fn open(ndb_path"): eng.index("pub fn ndb_path(&self)")]
+        except ValueError:
+            raise Miss("GraphEngine::open not found")
+        trunc = 0
+        if "truncate_torn_tail" in op:
+            if "pub fn truncate_torn_tail" not in t or op.index("truncate_torn_tail") > op.index("replay_committed"):
+                raise Miss("GraphEngine::open: truncate_torn_tail is not called before replay_committed")
+            trunc = 1
+        core.emit_n("wal_open_truncates_tail", trunc, "engine.rs GraphEngine::open: 1 iff the log is cut back to the end of its last complete record before it is replayed and appended to")
         # CRC: crc32fast = IEEE 802.3, reflected polynomial
         if "crc32fast::Hasher" not in t:
             raise Miss("wal.rs no longer uses crc32fast::Hasher")
